@@ -459,7 +459,7 @@ def run_tpd(c):
 # ------------------------------------------------------------------------------------------- degenerate quadrics and class instances vs lines
 @st.composite
 def deg_case(draw, tier="quick"):
-    what = draw(st.sampled_from(["line_pair", "plane_pair", "cone", "cylinder", "circle", "sphere", "degenerate_collection"]))
+    what = draw(st.sampled_from(["line_pair", "plane_pair", "cone", "cylinder", "circle", "sphere", "degenerate_collection", "mixed_conic_collection"]))
     return {"what": what, "v": [draw(C.ints(5)) for _ in range(12)], "A": draw(C.hpoint(3, 5)), "B": draw(C.hpoint(3, 5)), "r": draw(st.sampled_from([1, 2, 3, 0.5, 0.25, 0.1, 0.0625])),
             "k": draw(st.integers(0, len(UNIT) - 1)), "k2": draw(st.integers(0, len(UNIT) - 1)), "t": draw(st.sampled_from([1, 2, -1, 3])),
             "far": draw(st.sampled_from([1, 1, 4, 8]))}
@@ -496,6 +496,57 @@ def run_deg(c):
             ck.check(all(C.peq_all(g, pts[0], 1, 1e-6) for g in got), f"intersect:{what}:through-the-common-point", [g.tolist() for g in got])
         else:
             ck.check(len(got) == 2 and C.multiset_peq(got, pts, 1e-6), f"intersect:{what}:component-points", ([g.tolist() for g in got], [p.tolist() for p in pts]))
+        return ck.result()
+    if what == "mixed_conic_collection":
+        # conics of the plane in one collection, some of them pairs of lines and some not (circle, ellipse, hyperbola): the
+        # points at position k are the common points of conic k and the line
+        e, f_ = np.array(v[:3], float), np.array(v[3:6], float)
+        if np.linalg.matrix_rank(np.stack([e, f_])) < 2:
+            raise Skip("equal components")
+        ctr = np.array(v[6:8], float)
+        rr = float(c["r"]) if c["r"] >= 0.25 else 1.0
+        members = [("line_pair", lambda: Conic.from_lines(Line(e), Line(f_))), ("circle", lambda: Circle(Point(*ctr), rr)),
+                   ("ellipse", lambda: Ellipse(Point(*ctr), rr, rr + 1)), ("hyperbola", lambda: Conic(np.diag([1.0, -2.0, float(v[8] or 1)])))]
+        order = [[0, 1], [1, 0], [1, 2, 0], [0, 3, 1], [2, 0, 0, 3]][abs(v[9]) % 5]
+        A, B = np.array(c["A"][:2] + [c["A"][-1]], float), np.array(c["B"][:2] + [c["B"][-1]], float)
+        if np.linalg.matrix_rank(np.stack([A, B])) < 2:
+            raise Skip("line undefined")
+        lv = np.cross(A, B)
+        if abs(lv @ e) < 1e-9 * 0 and False:
+            pass
+        if np.linalg.matrix_rank(np.stack([lv, e])) < 2 or np.linalg.matrix_rank(np.stack([lv, f_])) < 2:
+            raise Skip("line is a component")
+        L = Line(lv)
+        built, singles = [], []
+        for name, fn in members:
+            q, f = call(name, fn)
+            if f:
+                raise Skip("constructor fails")
+            r1, f = call("intersect:single", q.intersect, L)
+            if f:
+                raise Skip("single intersection fails (checked by the other configurations)")
+            built.append(q)
+            singles.append([np.asarray(x.array) for x in r1])
+        Qc = QuadricCollection(np.stack([built[i].array for i in order]))
+        res, f = call("intersect:mixed-conic-collection", Qc.intersect, L)
+        if f:
+            return [f]
+        for pos, i in enumerate(order):
+            got = [np.asarray(x.array)[pos] for x in res]
+            M = built[i].array
+            for g in got:
+                if np.max(np.abs(g)) < 1e-9:
+                    continue
+                gn = g / np.max(np.abs(g))
+                ck.check(abs(gn @ lv) < 1e-6 * max(1.0, np.max(np.abs(lv))), "intersect:mixed-conic-collection:point-on-the-line", (pos, members[i][0], gn.tolist()))
+                ck.check(abs(gn @ M @ gn) < 1e-5 * max(1.0, np.max(np.abs(M))), "intersect:mixed-conic-collection:point-on-conic", (pos, members[i][0], complex(gn @ M @ gn)))
+            want = singles[i]
+            if len(want) == 1:
+                want = want * 2
+            if len(want) == len(got) == 2 and all(np.max(np.abs(w)) > 1e-9 for w in want):
+                # a tangent line: contact point up to the square root of the rounding error
+                tol = 1e-3 if C.peq_all(want[0], want[1], 1, 1e-3) else 1e-5
+                ck.check(C.multiset_peq(got, want, tol), "intersect:mixed-conic-collection:same-as-single", (pos, members[i][0], [g.tolist() for g in got], [w.tolist() for w in want]))
         return ck.result()
     if what == "degenerate_collection":
         # a collection whose elements are all degenerate but of different kinds (plane pairs, a cone, a cylinder) and one line:
